@@ -1,5 +1,180 @@
-/- Engine `oscbuf` (C02): not built yet. -/
-import Driver.Common
+/-
+  Engine `oscbuf` (C02): fixed-buffer discipline.  One op line = one message or bundle built
+  into destinations of every capacity `lo..hi` (each an exact-size block pre-filled with 0xAA).
+
+    M <A|V> <lo> <hi> <addr-hex> <tags-hex> <arg-token>*    rtosc_amessage / rtosc_vmessage
+    B <lo> <hi> <tree>                                      rtosc_bundle (tree: see BundleEngine; the
+                                                            capacity of the top-level node is replaced)
+    T <maxmsg> <addr-hex> <tags-hex> <arg-token>*           ThreadLink::writeArray
+    W<k> <maxmsg> <addr-hex> <arg-token>*                   ThreadLink::write, k-th literal call site
+    R<k> <addr-hex> <arg-token>*   /   Q<k> …               RtData::reply / broadcast, k-th call site
+
+  arg tokens as in engine `osc`:  w<8 hex>  q<16 hex>  m<8 hex>  s<hex|->  b<len>:<hex|-|N>
+  Output of M:  z=<ret for NULL buffer> g=ok c=<cap>:<ret>:<block>,…     (B: without z=)
+    block: hex, `z<n>` for n zero bytes, `-` for the empty block; `g=` is the harness' canary verdict.
+  If the model predicts an out-of-bounds store or read the line is the sanitizer's verdict.
+-/
+import Driver.BundleEngine
 namespace Driver.OscbufEngine
-def engine : Driver.Engine := Driver.stateless (fun _ => "unimplemented")
+open Rtosc Rtosc.Osc Driver.BundleEngine
+
+def hexFixed (s : String) (n : Nat) : Option Nat :=
+  match ofHex s with
+  | some bs => if bs.length = n then some (natOfBytes bs) else none
+  | none => none
+
+def parseArg (tok : String) : Option CArg :=
+  let body := (tok.drop 1).toString
+  match tok.toList.head? with
+  | some 'w' => (hexFixed body 4).map fun n => CArg.w32 (UInt32.ofNat n)
+  | some 'q' => (hexFixed body 8).map fun n => CArg.w64 (UInt64.ofNat n)
+  | some 'm' =>
+    match ofHex body with
+    | some [a, b, c, d] => some (.midi a b c d)
+    | _ => none
+  | some 's' => (ofHex body).map CArg.str
+  | some 'b' =>
+    match body.splitOn ":" with
+    | [l, d] =>
+      match l.toInt? with
+      | none => none
+      | some len =>
+        let len32 := UInt32.ofNat ((len % 4294967296).toNat)
+        if d = "N" then some (.blob len32 none)
+        else (ofHex d).map fun data => CArg.blob len32 (some data)
+    | _ => none
+  | _ => none
+
+/-- the promoted values a call site passes for `tags` and the union members `args` -/
+def toVa : Bytes → List CArg → Option (List VaArg)
+  | [], _ => some []
+  | t :: ts, args =>
+    if !hasReserved t then toVa ts args
+    else
+      match args with
+      | [] => none
+      | a :: as =>
+        let rest := toVa ts as
+        match a with
+        | .w32 v => rest.map (VaArg.int v :: ·)
+        | .w64 v => if t = 100 ∨ t = 102 then rest.map (VaArg.dbl v :: ·) else rest.map (VaArg.i64 v :: ·)
+        | .midi a b c d => rest.map (VaArg.midi a b c d :: ·)
+        | .str s => rest.map (VaArg.cstr s :: ·)
+        | .blob len data => rest.map (fun r => VaArg.int len :: VaArg.ptr data :: r)
+
+def construct (mode : String) (buffer : Option Bytes) (addr tags : Bytes) (args : List CArg) : Option AResult :=
+  if mode = "A" then amessage buffer addr tags args
+  else if mode = "V" then (toVa tags args).bind fun va => vmessage narrowF64 buffer addr tags va
+  else none
+
+def fresh (cap : Nat) : Bytes := List.replicate cap (170 : UInt8)
+
+/-- `cap:ret:block` for every capacity; `none` = some call stores out of bounds / is not modelled -/
+def sweep (lo hi : Nat) (call : Bytes → Except Fail (Bytes × Nat)) : Except Fail String := do
+  let mut parts : List String := []
+  for cap in List.range' lo (hi + 1 - lo) do
+    let (buf, ret) ← call (fresh cap)
+    parts := s!"{cap}:{ret}:{hexz buf}{if ret > cap then "!ret-exceeds-len" else ""}" :: parts
+  return ",".intercalate parts.reverse
+
+def templates : List String := ["", "s", "isi", "ss", "b", "ifs", "sT", "hd"]
+
+def tagsOf (s : String) : Bytes := s.toList.map fun c => UInt8.ofNat c.toNat
+
+def stepM (mode : String) (lo hi : Nat) (addr tags : Bytes) (args : List CArg) : String :=
+  match construct mode none addr tags args with
+  | none => "unmodelled"
+  | some nul =>
+    let r := sweep lo hi fun buf =>
+      match construct mode (some buf) addr tags args with
+      | some ⟨some b, ret, false⟩ => .ok (b, ret)
+      | some ⟨_, _, true⟩ => .error .oob
+      | _ => .error .hang
+    match r with
+    | .ok c => s!"z={nul.ret} g=ok c={c}"
+    | .error .oob => crash
+    | .error .hang => "unmodelled"
+
+def stepB (lo hi : Nat) (toks : List String) : String :=
+  match parseTree toks with
+  | some (.bundle tt _ kids, []) => render do
+    let blocks ← kids.mapM fun k => (build k).map (·.1)
+    let c ← sweep lo hi fun buf =>
+      match bundle buf tt blocks with
+      | .oob => .error .oob
+      | .hang => .error .hang
+      | .ok r => if r.oob then .error .oob else .ok (r.buf, r.ret)
+    return s!"g=ok c={c}"
+  | _ => "bad-op"
+
+/-- what the harness prints about a ThreadLink after one write -/
+def tlinkState (maxMsg : Nat) (res : Option AResult) : String :=
+  match res with
+  | some ⟨some b, ret, false⟩ =>
+    let head := s!"w={hexz b} n={if ret > 0 then 1 else 0}"
+    if ret = 0 then head
+    else
+      let rb := b.take ret ++ zeros (maxMsg - ret)        -- read_buffer after read()
+      match messageLength rb with
+      | some l => head ++ s!" m={l}:{toHex (rb.take l)}"
+      | none => hang
+  | some ⟨_, _, true⟩ => crash
+  | _ => "unmodelled"
+
+def replyState (tag : String) (res : Option AResult) : String :=
+  match res with
+  | some ⟨some b, _, false⟩ =>
+    match messageLength b with
+    | some l => s!"{tag}={l}:{toHex (b.take l)}"
+    | none => hang
+  | some ⟨_, _, true⟩ => crash
+  | _ => "unmodelled"
+
+def step (line : String) : String :=
+  match words line with
+  | "M" :: mode :: lo :: hi :: a :: t :: toks =>
+    match lo.toNat?, hi.toNat?, ofHex a, ofHex t, toks.mapM parseArg with
+    | some lo, some hi, some addr, some tags, some args =>
+      if hi < lo ∨ (mode ≠ "A" ∧ mode ≠ "V") then "bad-op" else stepM mode lo hi addr tags args
+    | _, _, _, _, _ => "bad-op"
+  | "B" :: lo :: hi :: toks =>
+    match lo.toNat?, hi.toNat? with
+    | some lo, some hi => if hi < lo then "bad-op" else stepB lo hi toks
+    | _, _ => "bad-op"
+  | "T" :: mm :: a :: t :: toks =>
+    match mm.toNat?, ofHex a, ofHex t, toks.mapM parseArg with
+    | some maxMsg, some addr, some tags, some args =>
+      if maxMsg < 1 then "bad-op" else tlinkState maxMsg (tlinkWriteArray (zeros maxMsg) addr tags args)
+    | _, _, _, _ => "bad-op"
+  | op :: rest =>
+    let k := (op.drop 1).toString.toNat?
+    match op.toList.head?, k.bind (templates[·]?) with
+    | some 'W', some tpl =>
+      match rest with
+      | mm :: a :: toks =>
+        match mm.toNat?, ofHex a, toks.mapM parseArg with
+        | some maxMsg, some addr, some args =>
+          if maxMsg < 1 then "bad-op"
+          else
+            let tags := tagsOf tpl
+            tlinkState maxMsg ((toVa tags args).bind fun va =>
+              tlinkWrite narrowF64 (zeros maxMsg) addr tags va)
+        | _, _, _ => "bad-op"
+      | _ => "bad-op"
+    | some c, some tpl =>
+      if c = 'R' ∨ c = 'Q' then
+        match rest with
+        | a :: toks =>
+          match ofHex a, toks.mapM parseArg with
+          | some addr, some args =>
+            let tags := tagsOf tpl
+            replyState (if c = 'R' then "reply" else "broadcast")
+              ((toVa tags args).bind fun va => rtdataReply narrowF64 (fresh 8192) addr tags va)
+          | _, _ => "bad-op"
+        | _ => "bad-op"
+      else "bad-op"
+    | _, _ => "bad-op"
+  | _ => "bad-op"
+
+def engine : Driver.Engine := Driver.stateless step
 end Driver.OscbufEngine
